@@ -62,7 +62,7 @@ package pktline
 //gvc:func Write
 //gvc:  props C34
 //gvc:  theory int
-//gvc:  modifies w.#wlen, w.#wdata
+//gvc:  modifies w.#sink
 //gvc:  let w0 = w.#wlen
 //gvc:  ensures toolong: len(p) > 65516 && w != nil ==> err == ErrPayloadTooLong && w.#wlen == w0
 //gvc:  ensures count: err == nil && w != nil ==> n == len(p) + 4 && w.#wlen == w0 + 4 + len(p)
@@ -74,7 +74,7 @@ package pktline
 //gvc:func WriteFlush
 //gvc:  props C34
 //gvc:  theory int
-//gvc:  modifies w.#wlen, w.#wdata
+//gvc:  modifies w.#sink
 //gvc:  let w0 = w.#wlen
 //gvc:  ensures flush: err == nil && w != nil ==> w.#wlen == w0 + 4 && w.#wdata[w0] == '0' && w.#wdata[w0 + 1] == '0' && w.#wdata[w0 + 2] == '0' && w.#wdata[w0 + 3] == '0'
 //gvc:end
@@ -82,7 +82,7 @@ package pktline
 //gvc:func WriteDelim
 //gvc:  props C34
 //gvc:  theory int
-//gvc:  modifies w.#wlen, w.#wdata
+//gvc:  modifies w.#sink
 //gvc:  let w0 = w.#wlen
 //gvc:  ensures delim: err == nil && w != nil ==> w.#wlen == w0 + 4 && w.#wdata[w0] == '0' && w.#wdata[w0 + 1] == '0' && w.#wdata[w0 + 2] == '0' && w.#wdata[w0 + 3] == '1'
 //gvc:end
@@ -90,7 +90,7 @@ package pktline
 //gvc:func WriteResponseEnd
 //gvc:  props C34
 //gvc:  theory int
-//gvc:  modifies w.#wlen, w.#wdata
+//gvc:  modifies w.#sink
 //gvc:  let w0 = w.#wlen
 //gvc:  ensures rend: err == nil && w != nil ==> w.#wlen == w0 + 4 && w.#wdata[w0] == '0' && w.#wdata[w0 + 1] == '0' && w.#wdata[w0 + 2] == '0' && w.#wdata[w0 + 3] == '2'
 //gvc:end
